@@ -43,7 +43,7 @@ def step (_ : Unit) : List String → Unit × String
       if chunks.flatten ≠ n then ((), "bad-op") else
       let (ops, ret) := plan fs 1 0 n chunks (r != 0)
       let states := (List.range (ops.length + 1)).map fun i => stateLetter fs (run fs (ops.take i)) n
-      ((), s!"ok ret={if ret then 1 else 0} ops={",".intercalate (ops.map opStr)} states={String.join states}")
+      ((), s!"ok ret={match ret with | some true => "1" | some false => "0" | none => "none"} ops={",".intercalate (ops.map opStr)} states={String.join states}")
     | _, _, _, _ => ((), "bad-op")
   | "sort" :: keys =>
     match keys.mapM text? with
